@@ -39,7 +39,7 @@ def setup(tmp, seed, names):
     base = make_genome(rng)
     qs = [[make_genome(rng, base)], [make_genome(rng, base)[:150], make_genome(rng)[:90]]]
     rs = [[base], [make_genome(rng, base)], [make_genome(rng)]]
-    env = dict(q=qs, r=rs, qfiles=[], rfiles=[], qsig={}, rsig={}, db={})
+    env = dict(q=qs, r=rs, qfiles=[], rfiles=[], qsig={}, rsig={}, db={}, qsig_empty={}, rsig_empty={})
     for i, c in enumerate(qs):
         env['qfiles'].append(W.write_fasta(os.path.join(tmp, 'q', f'query{i}.fasta'), c))
     for i, c in enumerate(rs):
@@ -52,6 +52,11 @@ def setup(tmp, seed, names):
             path = os.path.join(tmp, f'{side}_{name}.gs')
             dump_signatures(path, AnnotatedSignatures(sigs, [f'{side}{i}' for i in range(len(seqs))], SignaturesMeta(id_attr='key')))
             env[side + 'sig'][name] = path
+            # the same parameter set with NO signatures in the file: a mismatch must be refused all the same
+            from gambit.sigs import SignatureList
+            epath = os.path.join(tmp, f'{side}_{name}_empty.gs')
+            dump_signatures(epath, SignatureList([], ks))
+            env[side + 'sig_empty'][name] = epath
         taxa = [dict(name='T', rank='species', parent=0, thr=0.5, report=True, ncbi_id=1)]
         world = dict(kspec=[k, p], taxa=taxa, key='db' + name, version='1',
                      genomes=[dict(key=f'r{i}', desc=f'ref {i}', taxon=1, contigs=c, genbank_acc=None, refseq_acc=None, ncbi_id=None) for i, c in enumerate(rs)])
@@ -76,13 +81,14 @@ def command(env, row, out, idx):
         elif e != 'none':
             k, p = PARAMS[e]
             args += ['-k', str(k), '-p', p if idx % 3 else p.lower()]
+        refuse = not row['expect']['ok']           # rows that must be refused are also run with an EMPTY signature file on one side
         if q['kind'] == 'sigs':
-            args += ['--qs', env['qsig'][q['ks']]]
+            args += ['--qs', env['qsig_empty' if refuse and idx % 4 == 1 else 'qsig'][q['ks']]]
         else:
             for f in env['qfiles']:
                 args += ['-q', f]
         if r['kind'] == 'sigs':
-            args += ['--rs', env['rsig'][r['ks']]]
+            args += ['--rs', env['rsig_empty' if refuse and idx % 4 == 3 else 'rsig'][r['ks']]]
         elif r['kind'] == 'db':
             args += ['--use-db']
         elif r['kind'] == 'square':
